@@ -31,6 +31,38 @@ pub mod kani {
     pub use ::kani::*;
 }
 
+/// Vacuity witnesses.  `kani::cover!` makes CBMC emit a full trace for every satisfied cover (1.6 GB
+/// of JSON for a cover at the end of a round-trip harness), so reachability is witnessed by an
+/// assertion that is EXPECTED TO FAIL instead: the runner requires every "WITNESS:" check to come
+/// back FAILURE (reachable with the condition true) and treats anything else as a vacuous run.
+/// witness!(cond, "WITNESS:NAME"): a fresh nondeterministic choice forks the path — one copy ends
+/// at the (expected) failure, the other goes on unconstrained.  Natively the same number of
+/// `any()` calls is made so that replayed value sequences stay aligned.
+#[macro_export]
+macro_rules! witness {
+    ($cond:expr, $name:literal) => {{
+        #[cfg(kani)]
+        {
+            if $cond && ::kani::any::<bool>() {
+                assert!(false, $name);
+            }
+        }
+        #[cfg(not(kani))]
+        {
+            if $cond {
+                let _: bool = $crate::kani::any();
+            }
+        }
+    }};
+}
+/// the end of the harness is reachable under its assumptions
+#[macro_export]
+macro_rules! reach_end {
+    () => {
+        $crate::witness!(true, "WITNESS:REACH_END")
+    };
+}
+
 /// `kani::cover!` under Kani, nothing natively
 #[cfg(kani)]
 #[macro_export]
@@ -67,12 +99,14 @@ macro_rules! harnesses {
 pub mod util;
 #[cfg(any(all(kani, feature = "k_q"), all(not(kani), feature = "k_native")))]
 pub mod h_c16;
+#[cfg(any(all(kani, feature = "k_q"), all(not(kani), feature = "k_native")))]
+pub mod h_rt;
 #[cfg(any(all(kani, feature = "k_rec"), all(not(kani), feature = "k_native")))]
 pub mod h_send;
 
 #[cfg(all(not(kani), feature = "k_native"))]
 pub fn lookup(name: &str) -> Option<fn()> {
-    h_c16::lookup(name).or_else(|| h_send::lookup(name))
+    h_c16::lookup(name).or_else(|| h_send::lookup(name)).or_else(|| h_rt::lookup(name))
 }
 
 /// compiled once per feature set to warm the dependency cache (vlib/kanirun.py: seed_target)
